@@ -130,6 +130,7 @@ func (t *Trie) keys() []byte {
 	for k := range t.m {
 		result = append(result, k)
 	}
+	orderKeys(result)
 	return result
 }
 
